@@ -59,23 +59,39 @@ Definition flat_row (cfg : config) (denoms vals : list Z) (st : state) (code new
   ++ flat_map (fun d => flat_map (fun v => flat_acc cfg st d v) vals) denoms
   ++ flat_conns st ++ flat_synths st ++ flat_locks st ++ [total_sf st].
 
-Fixpoint scan (cfg : config) (denoms vals : list Z) (st : state) (ops : list eop) : list Z :=
+Fixpoint scan (cfg : config) (denoms vals : list Z) (st : state) (ops : list eop) : list (list Z) :=
   match ops with
   | [] => []
   | o :: r =>
     let '(st', code, id) := eapply cfg st o in
-    flat_row cfg denoms vals st' code id ++ scan cfg denoms vals st' r
+    flat_row cfg denoms vals st' code id :: scan cfg denoms vals st' r
   end.
 
 Definition case_init (c : case) : state :=
   init_state (c_t0 c) (c_vals c) (c_mults c) (c_supply c) (c_offset c) (c_bonded c).
 
-Definition model_obs (c : case) : list Z :=
+(* one row after setup, one row per operation *)
+Definition model_rows (c : case) : list (list Z) :=
   let vals := map fst (c_vals c) in
   flat_row (c_cfg c) (c_denoms c) vals (case_init c) 0 0
-  ++ scan (c_cfg c) (c_denoms c) vals (case_init c) (c_ops c).
+  :: scan (c_cfg c) (c_denoms c) vals (case_init c) (c_ops c).
+Definition model_obs (c : case) : list Z := concat (model_rows c).
 
-Definition case_ok (c : case) : bool := zlist_eqb (model_obs c) (c_expect c).
+(* result codes agree; code 97 of the implementation = "an error whose text the driver could not classify": a generic rejection,
+   compatible with any rejection the model predicts (error wording is not an observable); accepted-vs-rejected always matters *)
+Definition code_ok (m i : Z) : bool := (m =? i) || ((i =? 97) && negb (m =? 0)).
+Definition row_ok (m e : list Z) : bool :=
+  match m, e with
+  | mc :: mt, ec :: et => code_ok mc ec && zlist_eqb mt et
+  | _, _ => false
+  end.
+Fixpoint rows_eqb (rows : list (list Z)) (e : list Z) : bool :=
+  match rows with
+  | [] => match e with [] => true | _ => false end
+  | r :: rs => let n := length r in row_ok r (firstn n e) && rows_eqb rs (skipn n e)
+  end.
+
+Definition case_ok (c : case) : bool := rows_eqb (model_rows c) (c_expect c).
 
 (* index of the first differing position (debugging aid for the harness) *)
 Fixpoint first_diff (a b : list Z) (i : Z) : Z :=
